@@ -26,6 +26,36 @@ def number_token(lm) -> str:
     return cands[0]
 
 
+def literal_carries_numeral(chk: Check, R1: str, NUM: str, where: str) -> None:
+    """The production of the numeral stores the token value itself in a node field, and the node's eval returns that field."""
+    F = chk.facts
+    from .. import actions as A_
+    T_ = C.templates(F)
+    n_lit = 0
+    lit_problems = []
+    lit_where = where
+    for t in T_.all():
+        if [s_ for s_ in t.prod.rhs] != [NUM]:
+            continue
+        for cls_, flds in A_.new_nodes(t.result):
+            n_lit += 1
+            lit_where = '%s:%d' % (C.grammar(F).module.rel, t.prod.line) if hasattr(t.prod, 'line') else where
+            holder = [fn_ for fn_, fv in flds if isinstance(fv, tuple) and fv[:1] == ('tok',) and fv[2] == NUM]
+            touched = [(fn_, fv) for fn_, fv in flds if not (isinstance(fv, tuple) and fv[:1] == ('tok',)) and om.mentions(fv, NUM)]
+            if not holder:
+                lit_problems.append('%s: the node receives %s, not the value of the numeral token' % (
+                    t.key, ', '.join('%s=%s' % (fn_, show(fv)) for fn_, fv in (touched or flds))[:200]))
+                continue
+            if (cls_ + '.eval') in F.functions or om.own_eval(F, cls_):
+                selfp = ('param', om.self_param(F, cls_ + '.eval')) if (cls_ + '.eval') in F.functions else None
+                rets = {p_.outcome[1] for p_ in om.eval_paths(F, cls_) if p_.normal}
+                if selfp is not None and rets != {('attr', selfp, holder[0])}:
+                    lit_problems.append('%s.eval returns %s, not the stored numeral' % (cls_.rsplit('.', 1)[-1], ', '.join(sorted(show(r_) for r_ in rets))[:160]))
+    chk.require(not lit_problems and n_lit, R1, 'the literal node carries the numeral', lit_where,
+                '; '.join(sorted(set(lit_problems))) or ('%d production(s): token value -> node field -> result of eval, unchanged' % n_lit
+                                                         if n_lit else 'no production of the numeral token alone builds a node'))
+
+
 def check(chk: Check) -> None:
     F = chk.facts
     R1 = chk.rule('C08.R1', 'literals never pass through float: the numeral token\'s value is Decimal(<the matched text>) '
@@ -68,31 +98,7 @@ def check(chk: Check) -> None:
     N.number_constructor(chk, R1)
     # ... and that Decimal is what the literal evaluates to: the production of the numeral stores the token value itself in a
     # node field, and the node's eval returns that field (a memo of constants keyed by == would hand 1 out as True)
-    from .. import actions as A_
-    T_ = C.templates(F)
-    n_lit = 0
-    lit_problems = []
-    lit_where = where
-    for t in T_.all():
-        if [s_ for s_ in t.prod.rhs] != [NUM]:
-            continue
-        for cls_, flds in A_.new_nodes(t.result):
-            n_lit += 1
-            lit_where = '%s:%d' % (C.grammar(F).module.rel, t.prod.line) if hasattr(t.prod, 'line') else where
-            holder = [fn_ for fn_, fv in flds if isinstance(fv, tuple) and fv[:1] == ('tok',) and fv[2] == NUM]
-            touched = [(fn_, fv) for fn_, fv in flds if not (isinstance(fv, tuple) and fv[:1] == ('tok',)) and om.mentions(fv, NUM)]
-            if not holder:
-                lit_problems.append('%s: the node receives %s, not the value of the numeral token' % (
-                    t.key, ', '.join('%s=%s' % (fn_, show(fv)) for fn_, fv in (touched or flds))[:200]))
-                continue
-            if (cls_ + '.eval') in F.functions or om.own_eval(F, cls_):
-                selfp = ('param', om.self_param(F, cls_ + '.eval')) if (cls_ + '.eval') in F.functions else None
-                rets = {p_.outcome[1] for p_ in om.eval_paths(F, cls_) if p_.normal}
-                if selfp is not None and rets != {('attr', selfp, holder[0])}:
-                    lit_problems.append('%s.eval returns %s, not the stored numeral' % (cls_.rsplit('.', 1)[-1], ', '.join(sorted(show(r_) for r_ in rets))[:160]))
-    chk.require(not lit_problems and n_lit, R1, 'the literal node carries the numeral', lit_where,
-                '; '.join(sorted(set(lit_problems))) or ('%d production(s): token value -> node field -> result of eval, unchanged' % n_lit
-                                                         if n_lit else 'no production of the numeral token alone builds a node'))
+    literal_carries_numeral(chk, R1, NUM, where)
 
     # --------------------------------------------------------------------- R2
     for cls in om.op_classes(F):
